@@ -140,8 +140,13 @@ class HashClient:
             client.client_class = self.client_class
 
         key = self._make_client_key(server)
+        previous = self.clients.get(key)
         self.clients[key] = client
         self.hasher.add_node(key)
+        if previous is not None:
+            # e.g. a dead server coming back: its old client may still hold a
+            # connection opened by flush_all(), stats() or quit()
+            previous.close()
 
     def remove_server(self, server, port=None) -> None:
         # To maintain backward compatibility, if a port is provided, assume
